@@ -1,2 +1,3 @@
 SPECIFICATION Spec
 CONSTANTS D = 3
+ Small = FALSE
